@@ -111,6 +111,36 @@ def shape_of(ex, v):
         return S((Lit(v.v),))
     if isinstance(v, Sym):
         return S((Dyn(v, "raw"),))
+    from ..values import Elems, MapPart, PreSeq, Tu
+    parts = None
+    if isinstance(v, Tu):
+        parts = v.parts
+    elif isinstance(v, Obj) and v.oid in ex.st.heap and ex.st.heap[v.oid].kind in ("list", "set"):
+        parts = ex.st.heap[v.oid].parts
+    if parts is not None:
+        # a sequence of texts: the concatenation in order (for occurrence / order analyses)
+        atoms = []
+        for p in parts:
+            if isinstance(p, Elems):
+                for i in p.items:
+                    try:
+                        atoms.extend(shape_of(ex, i).atoms)
+                    except ValueError:
+                        pass
+            elif isinstance(p, MapPart):
+                alts = []
+                for g, its in p.alts:
+                    sub = []
+                    for i in its:
+                        try:
+                            sub.extend(shape_of(ex, i).atoms)
+                        except ValueError:
+                            pass
+                    alts.append((g, S(tuple(sub))))
+                atoms.append(JoinA((), p.seq, ex.alts_shape(alts).atoms, p.lid))
+        return S(tuple(atoms))
+    if isinstance(v, K):
+        return S((Lit(str(v.v)),))
     raise ValueError(v)
 
 
